@@ -1,6 +1,70 @@
+import random
+from harness.checks.c15 import judge_step
 """C14 - asserting a relation has the same effect whatever lived and died before (SymbolGraph.tla)."""
 from harness.core import Ctx, replay
 from harness.checks import sgcommon
+
+
+WORLD = {"univ": ["p1", "p2", "c1", "c2", "c3", "ceo"], "family": ["a", "b", "c", "d"]}
+
+
+def random_prefix(rnd, model, assertable):
+    """A population of the same shape that lived, was related and (mostly) died before; node indices get recycled."""
+    names = list(WORLD[model])
+    rnd.shuffle(names)
+    if model == "univ" and names.index("ceo") < names.index("p1"):
+        i, j = names.index("ceo"), names.index("p1")
+        names[i], names[j] = names[j], names[i]
+    keep = [n for n in names if n != "ceo" and rnd.random() < 0.25]
+    facts = rnd.sample(assertable, 3)
+    if model == "univ" and rnd.random() < 0.5:
+        facts = facts[:2] + [["head_of", "ceo", rnd.choice(["c1", "c2", "c3"])]]
+    pre = [{"k": "world", "model": model, "order": names, "facts": facts, "keep": keep,
+            "retire_roles": rnd.random() < 0.5}, {"k": "collect"}]
+    if rnd.random() < 0.8:
+        pre.append({"k": "sweep"})      # otherwise the sweep happens only implicitly (never, for pure assertions)
+    return pre
+
+
+def prefix_suffix(ctx, thorough):
+    """Prefix x suffix: the suffix (Ontology.tla behaviours, expectation = Closure) runs after a population of the same
+    shape lived and died; every step must look exactly as the closure says - which is what it looks like on a fresh graph."""
+    rnd = random.Random(ctx.seed + 14)
+    cases = []
+    for model in ("univ", "family"):
+        r = ctx.run_tlc("Ontology", f"Ontology_gen_{model}.cfg", expect="ok")
+        hs = [h for h in r.json_lines() if isinstance(h, list)]
+        hs.sort(key=repr)
+        assertable = sorted({tuple(s["f"]) for h in hs[:3000] for s in h})
+        if model == "univ":
+            hs = [h for h in hs if any(s["f"][0] == "head_of" for s in h)] + rnd.sample(hs, 1500)
+        hs = rnd.sample(hs, min(len(hs), 12000 if thorough else 2500))
+        for h in hs:
+            single = {}
+            facts = [list(f) for f in rnd.sample(assertable, 6)]
+            case = {"model": model, "h": h, "form": "elem", "prefix": random_prefix(rnd, model, [list(f) for f in assertable])}
+            if model == "univ":
+                wo = list(WORLD["univ"])
+                rnd.shuffle(wo)
+                if wo.index("ceo") < wo.index("p1"):
+                    i, j = wo.index("ceo"), wo.index("p1")
+                    wo[i], wo[j] = wo[j], wo[i]
+                case["world_order"] = wo
+            cases.append(case)
+    results = replay("onto", cases)
+    ctx.replayed += len(cases)
+    for c, r in zip(cases, results):
+        bad = None
+        for k, (m, o) in enumerate(zip(c["h"], r["steps"])):
+            pr = judge_step(m, o)
+            if pr:
+                bad = {"step": k, "assertion": m["f"], "problems": pr, "observed": o}
+                break
+        key = ["prefix-suffix", c["model"], c["prefix"][0]["order"], c["prefix"][0]["keep"], [s["f"] for s in c["h"]]]
+        ctx.case(key, True, sample={"prefix": c["prefix"], "suffix": [s["f"] for s in c["h"]]})
+        if bad:
+            ctx.violation({"case": key, "prefix": c["prefix"], **bad},
+                          note="after an earlier population lived and died, assertions no longer produce exactly their closure")
 
 
 def main():
@@ -15,9 +79,9 @@ def main():
     ctx.run_tlc("SymbolGraph", "SymbolGraph_sw_StaleRelationIndex.cfg", expect="violation")
     ctx.run_tlc("SymbolGraph", "SymbolGraph_sw_PopIdOfNone.cfg", expect="violation")
 
-    hs1, t1 = sgcommon.histories(ctx, "SymbolGraph_gen_c14p.cfg", lambda h: True, None if thorough else 5000)
+    hs1, t1 = sgcommon.histories(ctx, "SymbolGraph_gen_c14p.cfg", lambda h: True, None if thorough else 3500)
     hs2, t2 = sgcommon.histories(ctx, "SymbolGraph_gen_c14.cfg", lambda h: any(s["a"] == "relate" for s in h),
-                                 20000 if thorough else 2500)
+                                 20000 if thorough else 1500)
     hs = hs1 + hs2
     ctx.cov["histories_in_bound"] = {"phased": t1, "unphased_with_relate": t2}
     cases = [{"mode": "c14", "h": h} for h in hs]
@@ -67,6 +131,7 @@ def main():
         if bad:
             ctx.violation({"history": c["h"], **bad}, note="effect of asserting a relation depends on the process's past")
     ctx.cov["address_reuse_observed"] = reuse
+    prefix_suffix(ctx, thorough)
     v = sgcommon.validate_h1(ctx, results, names, pinned=False)
     for name, c in zip(names, cases):
         vv = v.get(name)
